@@ -152,7 +152,7 @@ func (f *failer) add(prop, sig, format string, a ...any) {
 // ---- C01: mutual exclusion under real parallelism ----
 
 func TestC01Free(t *testing.T) {
-	drive(t, "C01", "2..10 goroutines x 1..30 ops {Lock(read|write)+release, TryLock+release, double release, Lock with a context cancelled concurrently} on one Mutex/RWMutex with real parallelism and random yields at the hook points; occupancy counters are updated strictly inside the held interval; non-trivial iff >= 2 goroutines; distinct by program", 30,
+	drive(t, "C01", "2..10 goroutines x 1..30 ops {Lock(read|write)+release, TryLock+release, double release, Lock with a context cancelled concurrently, Lock/Unlock through one Locker / RLocker value shared by all goroutines} on one Mutex/RWMutex with real parallelism and random yields at the hook points; occupancy counters are updated strictly inside the held interval; non-trivial iff >= 2 goroutines; distinct by program", 30,
 		func(cs Case, v *ev.Verdict) {
 			f := &failer{v: v}
 			var mu csync.Mutex
@@ -189,12 +189,27 @@ func TestC01Free(t *testing.T) {
 				}
 				return mu.TryLock()
 			}
+			sharedW, sharedR := mu.Locker(), mu.Locker()
+			if cs.RW {
+				sharedW, sharedR = rw.Locker(), rw.RLocker()
+			}
 			bl := newBlocker(len(cs.G))
 			parallel(len(cs.G), func(g int) {
 				defer bl.finished.Add(1)
 				for _, op := range cs.G[g] {
 					write := !cs.RW || op%3 == 0
-					switch (op / 3) % 4 {
+					switch (op / 3) % 5 {
+					case 4:
+						// one sync.Locker value shared by all goroutines (as with sync.Cond)
+						l := sharedW
+						if !write {
+							l = sharedR
+						}
+						l.Lock()
+						enter(write)
+						runtime.Gosched()
+						leave(write)
+						l.Unlock()
 					case 0, 1:
 						bl.block(func(ctx context.Context) {
 							ctx, cancel := context.WithCancel(ctx)
@@ -468,6 +483,7 @@ func refcountFree(t *testing.T, prop string) {
 					cb = func(resolved bool, val int, err error) {
 						if resolved && int(relAt[val%len(relAt)].Load()) == val {
 							f.add("C09", "refcount:released-value-delivered", "a reference callback was told (resolved, value %d) after that value's release function had run", val)
+							f.add("C08", "refcount:released-value-exposed", "value %d was handed to a reference callback after its release function had run", val)
 						}
 						vw.mu.Lock()
 						vw.resolved, vw.val = resolved, val
